@@ -17,7 +17,9 @@ import (
 	"verifharness/locklog"
 	"verifharness/vh"
 
+	"github.com/projecteru2/core/cluster/calcium"
 	"github.com/projecteru2/core/lock"
+	clientv3 "go.etcd.io/etcd/client/v3"
 )
 
 type cplan struct {
@@ -30,6 +32,10 @@ type cplan struct {
 type plan struct {
 	Name string  `json:"name"`
 	C    []cplan `json:"contenders"`
+	// Via: "store" = lock objects from store.CreateLock, Lock/TryLock/Unlock
+	// called on them; "calcium" = the cluster-level cluster/calcium/lock.go:
+	// doLock (CreateLock + Lock, own rollback Unlock on failure) and doUnlock
+	Via string `json:"via"`
 }
 
 type result struct {
@@ -39,6 +45,8 @@ type result struct {
 	unlockErrs int
 	hbMs       int64 // etcd: largest heartbeat write latency during the run
 	attempts   int
+	errs       []string // texts of errors canonicalised to FOther (diagnosis only)
+	rank       []int    // calcium/etcd: provisional contender id -> emitted index (rank of its lease)
 }
 
 func lk(delay, hold, tmo int) cplan  { return cplan{locklog.OpLock, delay, hold, tmo} }
@@ -51,18 +59,18 @@ func corpus(backend string) []plan {
 		long = 1200
 	}
 	ps := []plan{
-		{"a-second-waits-for-first", []cplan{lk(0, 80, long), lk(30, 10, long)}},
-		{"b-trylock-busy", []cplan{lk(0, 600, long), try(100, 10, long)}},
-		{"c-wait-timeout", []cplan{lk(0, 400, long), lk(50, 10, 150)}}, // etcd: replaced below
-		{"d-six-lockers", []cplan{lk(0, 10, long), lk(0, 10, long), lk(0, 10, long), lk(0, 10, long), lk(0, 10, long), lk(0, 10, long)}},
-		{"e-single-lock", []cplan{lk(0, 20, long)}},
-		{"e-single-trylock", []cplan{try(0, 20, long)}},
+		{Name: "a-second-waits-for-first", C: []cplan{lk(0, 80, long), lk(30, 10, long)}},
+		{Name: "b-trylock-busy", C: []cplan{lk(0, 600, long), try(100, 10, long)}},
+		{Name: "c-wait-timeout", C: []cplan{lk(0, 400, long), lk(50, 10, 150)}}, // etcd: replaced below
+		{Name: "d-six-lockers", C: []cplan{lk(0, 10, long), lk(0, 10, long), lk(0, 10, long), lk(0, 10, long), lk(0, 10, long), lk(0, 10, long)}},
+		{Name: "e-single-lock", C: []cplan{lk(0, 20, long)}},
+		{Name: "e-single-trylock", C: []cplan{try(0, 20, long)}},
 	}
 	if backend == "redis" {
-		ps = append(ps, plan{"f-acquire-on-retry", []cplan{lk(0, 200, 1200), lk(50, 10, 1200)}})
+		ps = append(ps, plan{Name: "f-acquire-on-retry", C: []cplan{lk(0, 200, 1200), lk(50, 10, 1200)}})
 	} else {
 		// etcd wait time-outs are >= 300 ms (see stalled below)
-		ps[2] = plan{"c-wait-timeout", []cplan{lk(0, 700, long), lk(50, 10, 300)}}
+		ps[2] = plan{Name: "c-wait-timeout", C: []cplan{lk(0, 700, long), lk(50, 10, 300)}}
 	}
 	return ps
 }
@@ -118,7 +126,13 @@ func runContenders(locks []lock.DistributedLock, p plan, res *result) {
 			L.Call(i, c.Op)
 			_, err, panicked := locklog.Acquire(ctx, locks[i], c.Op)
 			if err != nil || panicked {
-				L.Fail(i, locklog.ClassifyFail(c.Op, err, panicked))
+				f := locklog.ClassifyFail(c.Op, err, panicked)
+				L.Fail(i, f)
+				if f == "FOther" {
+					mu.Lock()
+					res.errs = append(res.errs, fmt.Sprintf("%d: %v", i, err))
+					mu.Unlock()
+				}
 				_ = locklog.Unlock(ctx, locks[i]) // cleanup (closes the etcd session); not logged
 				return
 			}
@@ -138,7 +152,142 @@ func runContenders(locks []lock.DistributedLock, p plan, res *result) {
 	res.evs = L.Events()
 }
 
+// corpus and random plans of the cluster-level runs: only Lock exists there
+func calciumPlans(r *vh.Run, backend string) []plan {
+	long := 999
+	if backend == "redis" {
+		long = 1200
+	}
+	ps := []plan{
+		{Name: "calcium-hand-over", C: []cplan{lk(0, 80, long), lk(30, 10, long)}},
+		{Name: "calcium-wait-timeout", C: []cplan{lk(0, 400, long), lk(50, 10, 150)}},
+		{Name: "calcium-six-lockers", C: []cplan{lk(0, 10, long), lk(0, 10, long), lk(0, 10, long), lk(0, 10, long), lk(0, 10, long), lk(0, 10, long)}},
+	}
+	if backend == "etcd" {
+		ps[1] = plan{Name: "calcium-wait-timeout", C: []cplan{lk(0, 700, long), lk(50, 10, 300)}}
+	}
+	for k, n := 0, r.N(8, 100); k < n; k++ {
+		p := randomPlan(r, backend, k)
+		p.Name = "calcium-" + p.Name
+		for i := range p.C {
+			p.C[i].Op = locklog.OpLock
+		}
+		ps = append(ps, p)
+	}
+	for i := range ps {
+		ps[i].Via = "calcium"
+	}
+	return ps
+}
+
+// runCalciumContenders: one goroutine per contender through the real
+// Calcium.doLock / doUnlock (hook file cluster/calcium/export_f_verif.go).  The
+// lock objects are created inside doLock; they are returned in locks (doLock
+// returns the object also when Lock failed).
+func runCalciumContenders(c *calcium.Calcium, key string, p plan, res *result) (locks []lock.DistributedLock) {
+	ctx, cancel := context.WithTimeout(context.Background(), 15*time.Second)
+	defer cancel()
+	var wg sync.WaitGroup
+	var mu sync.Mutex
+	locks = make([]lock.DistributedLock, len(p.C))
+	L := locklog.NewLog()
+	for i := range p.C {
+		wg.Add(1)
+		go func(i int) {
+			defer wg.Done()
+			cp := p.C[i]
+			time.Sleep(time.Duration(cp.DelayMs) * time.Millisecond)
+			L.Call(i, locklog.OpLock)
+			var l lock.DistributedLock
+			var err error
+			panicked := false
+			func() {
+				defer func() {
+					if pv := recover(); pv != nil {
+						err, panicked = fmt.Errorf("panic: %v", pv), true
+					}
+				}()
+				l, _, err = c.VerifFDoLock(ctx, key, time.Duration(cp.TmoMs)*time.Millisecond)
+			}()
+			mu.Lock()
+			locks[i] = l
+			mu.Unlock()
+			if err != nil || panicked {
+				// no Unlock here: doLock has already rolled back
+				f := locklog.ClassifyFail(locklog.OpLock, err, panicked)
+				L.Fail(i, f)
+				if f == "FOther" {
+					mu.Lock()
+					res.errs = append(res.errs, fmt.Sprintf("%d: %v", i, err))
+					mu.Unlock()
+				}
+				return
+			}
+			L.Enter(i)
+			time.Sleep(time.Duration(cp.HoldMs) * time.Millisecond)
+			L.Exit(i)
+			var uerr error
+			func() {
+				defer func() {
+					if pv := recover(); pv != nil {
+						uerr = fmt.Errorf("panic: %v", pv)
+					}
+				}()
+				uerr = c.VerifFDoUnlock(ctx, l, "")
+			}()
+			L.URet(i)
+			if uerr != nil {
+				mu.Lock()
+				res.unlockErrs++
+				mu.Unlock()
+			}
+		}(i)
+	}
+	wg.Wait()
+	res.evs = L.Events()
+	return locks
+}
+
+// runEtcdCalcium: the watch is started first; the contender <-> lease mapping
+// comes from the lock objects afterwards, and contenders are renumbered by the
+// rank of their lease (the model creates its contenders in lease-grant order).
+func runEtcdCalcium(env *locklog.Etcd, c *calcium.Calcium, key string, p plan) (res result) {
+	t0 := time.Now() // the heartbeat window includes the creation of the lock objects (their leases)
+	run, err := env.NewRun(key, nil)
+	if err != nil {
+		if run != nil {
+			run.Close()
+		}
+		return result{evs: locklog.Unacceptable(), infra: "setup: " + err.Error()}
+	}
+	locks := runCalciumContenders(c, key, p, &res)
+	res.hbMs = env.MaxLatency(t0, time.Now()).Milliseconds()
+	leases := make([]clientv3.LeaseID, len(locks))
+	for i, l := range locks {
+		id, ok := locklog.EtcdLease(l)
+		if !ok {
+			run.Close()
+			res.infra = fmt.Sprintf("contender %d: no lock object / session lease", i)
+			return res
+		}
+		leases[i] = id
+	}
+	res.rank, run.Leases = locklog.RankByLease(leases)
+	res.evs = locklog.Renumber(res.evs, res.rank)
+	muts, err := run.Finish()
+	if err != nil {
+		res.infra = "watch: " + err.Error() // empty muts: the log cannot be accepted
+		return res
+	}
+	res.muts = muts
+	return res
+}
+
 func runEtcd(env *locklog.Etcd, key string, p plan) (res result) {
+	if p.Via == "calcium" {
+		return runEtcdCalcium(env, env.C, key, p)
+	}
+	t0 := time.Now() // the heartbeat window includes the creation of the lock objects (their leases)
 	run, err := env.NewRun(key, ttls(p))
 	if err != nil {
 		if run != nil {
@@ -149,7 +298,6 @@ func runEtcd(env *locklog.Etcd, key string, p plan) (res result) {
 		}
 		return result{evs: locklog.Unacceptable(), infra: "setup: " + err.Error()}
 	}
-	t0 := time.Now()
 	runContenders(run.Locks, p, &res)
 	res.hbMs = env.MaxLatency(t0, time.Now()).Milliseconds()
 	muts, err := run.Finish()
@@ -188,7 +336,13 @@ func runEtcdRetry(env *locklog.Etcd, k int, p plan) (res result) {
 	}
 }
 
-func runRedis(key string, p plan) (res result) {
+func runRedis(cal *calcium.Calcium, key string, p plan) (res result) {
+	if p.Via == "calcium" {
+		// one Calcium on one miniredis for all cluster-level runs (distinct keys;
+		// miniredis time never advances in C18)
+		runCalciumContenders(cal, "c"+key, p, &res)
+		return res
+	}
 	run, err := locklog.NewRedisRun(key, ttls(p))
 	if err != nil {
 		return result{evs: locklog.Unacceptable(), infra: "setup: " + err.Error()}
@@ -209,10 +363,15 @@ func stream(t *testing.T, backend string, exec func(k int, p plan) result) {
 	}
 	// the whole plan is drawn before anything runs: deterministic given the seed
 	plans := corpus(backend)
-	n := r.N(30, 500)
+	n := r.N(20, 500)
 	for k := 0; k < n; k++ {
 		plans = append(plans, randomPlan(r, backend, k))
 	}
+	for i := range plans {
+		plans[i].Via = "store"
+	}
+	// then the cluster-level runs (Calcium.doLock / doUnlock)
+	plans = append(plans, calciumPlans(r, backend)...)
 	results := make([]result, len(plans))
 	locklog.Pool(len(plans), 6, func(k int) { results[k] = exec(k, plans[k]) })
 
@@ -228,7 +387,11 @@ func stream(t *testing.T, backend string, exec func(k int, p plan) result) {
 		tmo := make([]int64, len(p.C))
 		ttl := make([]int64, len(p.C))
 		for i, c := range p.C {
-			tmo[i] = int64(c.TmoMs)
+			j := i
+			if res.rank != nil {
+				j = res.rank[i] // contenders renumbered by lease rank
+			}
+			tmo[j] = int64(c.TmoMs)
 			ttl[i] = 60
 		}
 		var term string
@@ -241,6 +404,12 @@ func stream(t *testing.T, backend string, exec func(k int, p plan) result) {
 		desc := map[string]any{"backend": backend, "plan": p, "log": res.evs}
 		if backend == "etcd" {
 			desc["muts"] = res.muts
+		}
+		if res.rank != nil {
+			desc["contender_index_of_plan_entry"] = res.rank
+		}
+		if len(res.errs) > 0 {
+			desc["other_errors"] = res.errs
 		}
 		if res.infra != "" {
 			desc["infrastructure_failure"] = res.infra
@@ -255,10 +424,11 @@ func stream(t *testing.T, backend string, exec func(k int, p plan) result) {
 			}
 		}
 		r.Count("backend=" + backend)
+		r.Count("via=" + p.Via)
 		r.Count(fmt.Sprintf("n=%d", len(p.C)))
 		for i, c := range p.C {
 			r.Count("op=" + c.Op)
-			r.Count("outcome=" + locklog.Outcome(res.evs, i))
+			r.Count("outcome[" + p.Via + "]=" + locklog.Outcome(res.evs, i))
 		}
 		if contention {
 			r.Count("runs_with_contention")
@@ -266,7 +436,7 @@ func stream(t *testing.T, backend string, exec func(k int, p plan) result) {
 		if res.unlockErrs > 0 {
 			r.Count("runs_with_unlock_error")
 		}
-		r.Add(term, desc, map[string]any{"backend": backend, "n": len(p.C)}, contention)
+		r.Add(term, desc, map[string]any{"backend": backend, "n": len(p.C), "via": p.Via}, contention)
 	}
 	if dropped*2 > len(plans) {
 		t.Fatalf("more than half of the etcd runs were dropped because the embedded cluster stalled (%d of %d)", dropped, len(plans))
@@ -276,7 +446,10 @@ func stream(t *testing.T, backend string, exec func(k int, p plan) result) {
 		" hold 5..50 ms (a third of the plans: 100..350 ms), wait time-out 300..999 ms (etcd) / 100..1200 ms (redis); one goroutine and one lock object" +
 		" (real store.CreateLock) per contender on the real " + backend + " backend; etcd: a run during which a heartbeat write" +
 		" to the embedded cluster took at least half the smallest wait time-out is repeated (at most twice) on a fresh key," +
-		" independently of what the contenders observed; non-trivial = some contender" +
+		" independently of what the contenders observed; then the same kind of plans (3 fixed: hand-over, wait time-out, six lockers; 8 quick / 100 thorough random, Lock only)" +
+		" through the cluster-level cluster/calcium/lock.go (tag via=calcium): each contender calls the real Calcium.doLock (CreateLock + Lock, own rollback Unlock on failure)" +
+		" and doUnlock through the verif hook file; etcd: contenders are identified by the session lease read from the returned lock object and renumbered by lease rank;" +
+		" non-trivial = some contender" +
 		" issued its call while another one was active")
 }
 
@@ -289,6 +462,14 @@ func TestC18(t *testing.T) {
 	if err != nil {
 		t.Fatalf("embedded etcd: %v", err)
 	}
+	// a real Calcium per backend for the cluster-level runs
+	if env.C, _, err = locklog.NewCalcium(t, "etcd", 2*time.Second); err != nil {
+		t.Fatalf("calcium/etcd: %v", err)
+	}
+	rcal, _, err := locklog.NewCalcium(t, "redis", 2*time.Second)
+	if err != nil {
+		t.Fatalf("calcium/redis: %v", err)
+	}
 	stream(t, "etcd", func(k int, p plan) result { return runEtcdRetry(env, k, p) })
-	stream(t, "redis", func(k int, p plan) result { return runRedis(fmt.Sprintf("k%d", k), p) })
+	stream(t, "redis", func(k int, p plan) result { return runRedis(rcal, fmt.Sprintf("k%d", k), p) })
 }
